@@ -53,14 +53,29 @@ def make_types(rng):
 
     def fl(w, bo, name):
         def g(rng, ctrl_val=None):
-            x = rng.choice([0.0, 1.0, -2.5, 100.25, 1e-3, float("inf"), -0.0, 3.0e38 if w >= 32 else 6.0e4])
-            fmt = {16: "e", 32: "f", 64: "d"}[w]
-            b = struct.pack((">" if bo == MSB else "<") + fmt, x)
+            r = rng.random()
+            if r < 0.25:
+                # any bit pattern: subnormals, NaNs, the whole exponent range
+                b = rng.getrandbits(w).to_bytes(w // 8, "big")
+            elif r < 0.4:
+                # format extremes: smallest subnormal, largest subnormal, smallest normal, largest finite, either sign
+                mb = {16: 10, 32: 23, 64: 52}[w]
+                v = rng.choice([1, (1 << mb) - 1, 1 << mb, ((1 << (w - 1 - mb)) - 1 << mb) - 1]) | (rng.getrandbits(1) << (w - 1))
+                b = v.to_bytes(w // 8, "big" if bo == MSB else "little")
+            else:
+                x = rng.choice([0.0, 1.0, -2.5, 100.25, 1e-3, float("inf"), -0.0, 3.0e38 if w >= 32 else 6.0e4])
+                fmt = {16: "e", 32: "f", 64: "d"}[w]
+                b = struct.pack((">" if bo == MSB else "<") + fmt, x)
             return "".join(f"{c:08b}" for c in b)
         return PT(name, ["pt", S(name), "plain", ["float", str(w), S("IEEE754"), S(bo), NOCAL]], w, g)
     add(fl(32, MSB, "F32_T")); add(fl(64, MSB, "F64_T")); add(fl(16, LSB, "F16LE_T"))
 
     def mil(rng, ctrl_val=None):
+        if rng.random() < 0.4:
+            # extremes of the 24-bit mantissa and of the 8-bit exponent (-128 lies below the float32 range)
+            m = rng.choice([0x000001, 0x400000, 0x7FFFFF, 0x800000, 0xFFFFFF, 0xBFFFFF, rng.getrandbits(24)])
+            e = rng.choice([0x80, 0x81, 0x82, 0x7F, 0x00, 0xFF])
+            return f"{m:024b}{e:08b}"
         return rbits(rng, 32)
     add(PT("MIL_T", ["pt", S("MIL_T"), "plain", ["float", "32", S("MILSTD_1750A"), S(MSB), NOCAL]], 32, mil))
     # enum over 3 bits with gaps
@@ -146,9 +161,11 @@ class Cont:
 
 
 class Defn:
-    def __init__(self, rng, apid_name="PKT_APID", max_depth=3, fanout=3, neg_lengths=False):
+    def __init__(self, rng, apid_name="PKT_APID", max_depth=3, fanout=3, neg_lengths=False, adj_pool=None, rich=False):
         self.rng = rng
         self.neg_lengths = neg_lengths
+        self.adj_pool = adj_pool    # slope/intercept pairs for length adjustments (definitions that are not encoded)
+        self.rich = rich            # criteria comparing two parameters with differing raw/calibrated selectors
         self.types = make_types(rng)
         self.count = 0
         self.all = []
@@ -195,6 +212,8 @@ class Defn:
                 adj = ["8", "0"]
                 if self.neg_lengths and rng.random() < 0.5:
                     adj = rng.choice([["8", "-16"], ["-8", "16"], ["1", "-3"], ["8", "-8"]])
+                if self.adj_pool and rng.random() < 0.7:
+                    adj = list(rng.choice(self.adj_pool))
                 if kind == "str":
                     se = ["str", S("ISO-8859-1"), "-", S(ln), "-", "1", adj, "-", "-", "-"]
                 else:
@@ -270,6 +289,17 @@ class Defn:
             else:
                 # deliberately overlapping with a sibling now and then
                 ch.criteria = [c06.cmp_sx(selector[0], ">=", str(k), True)]
+            if self.rich and rng.random() < 0.35:
+                # parameter-versus-parameter conditions with independent raw/calibrated selectors, nested both ways
+                other = rng.choice(["VERSION", "TYPE", "SEQ_FLGS", "SRC_SEQ_CTR"])
+                pp = lambda: c06.cond_sx(selector[0], rng.choice(["==", "!=", "<", ">="]), other, None,  # noqa: E731
+                                         rng.random() < 0.5, rng.random() < 0.5)
+                lit = c06.cond_sx(selector[0], "==", None, str(k), rng.random() < 0.5, False)
+                ch.criteria = [rng.choice([
+                    ["bexpr", pp()],
+                    ["bexpr", ["and", [lit, pp()], [["or", [pp(), lit], []]]]],
+                    ["bexpr", ["or", [pp()], [["and", [lit, pp()], [["or", [lit, pp()], []]]]]]],
+                ])]
             ch.sel_value = k
             c.children.append(ch)
             self.all.append(ch)
